@@ -260,6 +260,22 @@ def write_replay(prop, v):
     return os.path.relpath(p, VERIF)
 
 
+def run_regress(ctx, mod):
+    """replay tier: every saved failing input under regress/<id>/ (shrunk inputs that exposed a seeded change or a
+    repaired defect) is re-run through the plain check body, without Hypothesis"""
+    d = os.path.join(VERIF, 'regress', ctx.prop)
+    if not os.path.isdir(d):
+        return
+    for name in sorted(os.listdir(d)):
+        if not name.endswith('.json'):
+            continue
+        with open(os.path.join(d, name)) as f:
+            data = json.load(f)
+        ctx.rec.add('regression_inputs_replayed')
+        for bucket, detail in mod.replay(data['case']):
+            ctx.rec.violation(bucket, detail, data['case'])
+
+
 # ------------------------------------------------------------------ shard entry
 def shard_main(argv):
     prop, tier, seed, k, n, out = argv[0], argv[1], int(argv[2]), int(argv[3]), int(argv[4]), argv[5]
@@ -269,6 +285,8 @@ def shard_main(argv):
     status = 'ok'
     err = None
     try:
+        if k == 0:
+            run_regress(ctx, mod)
         mod.run(ctx)
     except Exception:
         status = 'harness_error'
